@@ -195,8 +195,9 @@ class RVData:
         # First handle time data:
 
         time_data = None
-        if time_kwargs is None:
-            time_kwargs = dict()
+        # (a copy: the format and scale found below must not leak into the
+        # caller's dictionary and from there into the parsing of another table)
+        time_kwargs = dict() if time_kwargs is None else dict(time_kwargs)
 
         # First check for any of the valid astropy Time format names:
         # FUTURETODO: right now we only support jd and mjd (and b-preceding)
